@@ -2,6 +2,8 @@ import AvoVerif.Props.C11
 import AvoVerif.Props.C11Text
 import AvoVerif.Props.C11Tables
 import AvoVerif.Props.C11Examples
+import AvoVerif.Props.C11Accept
+import AvoVerif.Props.C11Bind
 #print axioms Avo.Print.flush_complete
 #print axioms Avo.Print.flush_complete_function
 #print axioms Avo.Print.labels_bound
@@ -18,3 +20,14 @@ import AvoVerif.Props.C11Examples
 #print axioms Avo.Print.print_faithful_gen
 #print axioms Avo.Print.C11_partial
 #print axioms Avo.Print.exFile_wf
+#print axioms Avo.Drv.C11.acceptPrintE_sound
+#print axioms Avo.Drv.C11.acceptPrint_sound
+#print axioms Avo.Drv.C11.branchOK_sound
+#print axioms Avo.Drv.C11.acceptAsmFn_sound
+#print axioms Avo.Drv.C11.acceptAsmE_sound
+#print axioms Avo.Drv.C11.acceptAsm_sound
+#print axioms Avo.Print.ows_inj
+#print axioms Avo.Drv.C11.exFile_wf_gen
+#print axioms Avo.Drv.C11.exDataFile_accepted
+#print axioms Avo.Drv.C11.exAsmFn_accepted
+#print axioms Avo.Print.labelsFrom_is_labelTarget
